@@ -246,3 +246,56 @@ def w4(facts, tier):
         else:
             yield ob(pr, "W4", key, "violation" if ok is False else "undecided", where(wf),
                      f"{wn} can emit [{rx.show_word(word)}] which {rn} does not consume; writer {rx.show(lw)} ; reader {rx.show(lr)}")
+
+
+# ---------------------------------------------------------------------------
+# W8: the schema readers at library format 0 (read-only legacy) consume the frozen format-0 layout
+
+FORMAT0_PATH = os.path.join(os.path.dirname(SPEC_PATH), "format0_spec.json")
+
+
+def format0_langs(facts, W=None):
+    _, des = impl_pairs(facts)
+    W = W or wire.WireAnalysis(facts)
+    out = {}
+    for (ty, fid), (rf, rts) in sorted(des.items()):
+        if ty not in SCHEMA_TYPES and ty != "savefile::VecOrStringLayout":
+            continue
+        lits, guards = W.probe([rf], [rts])
+        ents = []
+        for g in W.guard_assignments(guards):
+            lr, _, _, _ = W.lang(rf, 0, g, rts)
+            ents.append((gkey(g), lr, rf))
+        out[ty] = ents
+    return out
+
+
+@rule("W8", ["C13"], floor=11, doc="library format 0 (old files; read-only): specialised to file_version = 0, the wire language of every schema-component "
+      "reader equals the frozen format-0 layout (spec/format0_spec.json: the format-1 layout without the memory-layout annotations "
+      "and the discriminant-width byte)")
+def w8(facts, tier):
+    spec = json.load(open(FORMAT0_PATH))
+    W = wire.WireAnalysis(facts)
+    seen = set()
+    for ty, ents in format0_langs(facts, W).items():
+        seen.add(ty)
+        se = spec.get(ty)
+        for gk, lr, rf in ents:
+            key = ty + (":" + gk if gk else "")
+            if se is None or gk not in se:
+                yield ob(["C13"], "W8", key, "undecided", where(rf), f"{ty}: no format-0 entry in the frozen specification")
+                continue
+            ls = rx.from_json(se[gk]["rx"])
+            ok1, w1_, _, _ = W.contains_modulo_expansion(ls, lr, 0, {})
+            ok2, w2_, _, _ = W.contains_modulo_expansion(lr, ls, 0, {})
+            if ok1 is True and ok2 is True:
+                yield ob(["C13"], "W8", key, "pass", where(rf), f"{rf['id']} at format 0 consumes {rx.show(lr)[:160]}")
+            else:
+                st = "violation" if (ok1 is False or ok2 is False) else "undecided"
+                msg = (f"a format-0 {ty.split('::')[-1]} laid out as [{rx.show_word(w1_)}] is no longer consumed" if ok1 is not True else
+                       f"the reader consumes [{rx.show_word(w2_)}], which is not how format 0 lays out a {ty.split('::')[-1]}")
+                yield ob(["C13"], "W8", key, st, where(rf),
+                         f"{rf['id']} at file_version 0: {msg}; reader: {rx.show(lr)[:300]} ; format 0: {rx.show(ls)[:300]}: schema sections of "
+                         f"old files are mis-framed")
+    for ty in sorted(set(spec) - seen):
+        yield ob(["C13"], "W8", f"missing-reader:{ty}", "violation", "", f"the format-0 specification describes {ty} but no such reader exists")
